@@ -307,7 +307,8 @@ class Evaluator:
             right = self.ev(c, env)
             if right is UNK:
                 return UNK
-            if (left is NONNULL or right is NONNULL) and not (isinstance(op, (ast.Is, ast.IsNot)) and (left is None or right is None)):
+            if (left is NONNULL or right is NONNULL) and not (isinstance(op, (ast.Is, ast.IsNot, ast.Eq, ast.NotEq))
+                                                              and (left is None or right is None)):
                 return UNK   # "some object that is not None": only its None-ness is known, never its value
             try:
                 if isinstance(op, ast.Eq):
@@ -1014,6 +1015,14 @@ class CxClass:
                     inner = ev(f.value)
                     if isinstance(inner, str) and _MARK_RE.fullmatch(inner):
                         return inner
+                raise UnknownIdiom('%s: call %s' % (where, short(e, 60)))
+            if isinstance(e, ast.Call) and isinstance(e.func, ast.Name) and e.func.id in ('repr', 'ascii') and len(e.args) == 1 \
+                    and not e.keywords and e.func.id not in env:
+                inner = ev(e.args[0])     # repr(<attribute>): the same as {..!r}
+                mm = _MARK_RE.fullmatch(inner) if isinstance(inner, str) else None
+                if mm:
+                    self.literal_attrs.add(mm.group(1))
+                    return inner
                 raise UnknownIdiom('%s: call %s' % (where, short(e, 60)))
             if isinstance(e, (ast.List, ast.Tuple)):
                 return [ev(x) for x in e.elts]
